@@ -164,7 +164,7 @@ def gen_sigma(rng, shape, scalar_only=False, positive=False):
 
 def gen_dim(rng, nd):
     if rng.random() < 0.3:
-        return None
+        return None if rng.random() < 0.8 else []      # an empty dim reduces over all dimensions, like None
     k = rng.randint(1, nd)
     axes = rng.sample(range(nd), k)
     enc = [a if rng.random() < 0.5 else a - nd for a in axes]
@@ -707,7 +707,7 @@ def elem_values(e, p, shape):
 
 def red_axes(e, nd):
     d = e['dim']
-    if d is None:
+    if d is None or (not isinstance(d, int) and len(d) == 0):
         return tuple(range(nd))
     return tuple(sorted({(a % nd) for a in ([d] if isinstance(d, int) else d)}))
 
